@@ -174,7 +174,7 @@ def resume_var(P):
     """name of the variable of webentity_inorder_iter that holds the LRU of the resume token (assigned from follow_path)"""
     outer = P.method('LRUTrie', 'webentity_inorder_iter')
     for a in P.own(outer, ast.Assign):
-        if isinstance(a.value, ast.Call) and isinstance(a.value.func, ast.Name) and a.value.func.id == 'follow_path' and isinstance(a.targets[0], ast.Name):
+        if isinstance(a.targets[0], ast.Name) and any(isinstance(c, ast.Call) and isinstance(c.func, ast.Name) and c.func.id == 'follow_path' for c in ast.walk(a.value)):
             return a.targets[0].id
     raise AnalysisError('webentity_inorder_iter no longer computes the resume LRU with follow_path')
 
@@ -211,13 +211,15 @@ def order(ctx, rr):
         if r.val.get('isnone:pagination_path') is False and 'node' in pos:
             okk = False
             PL = resume_var(P)
+            ylru = [e for e in r.events if e.kind == 'yield'][0].args[1]
             for k, v in r.val.items():
                 if k.startswith('ORD:') and PL in k:
                     a, b = k[4:].split(' ? ')
-                    cur, pl = (a, b) if base(b) == PL else (b, a)
-                    okk = r.ord(cur, pl) == 'GT'
+                    if {base(a), base(b)} == {PL, base(ylru)}:
+                        okk = r.ord(ylru, b if base(a) == base(ylru) else a) == 'GT'
             if not okk:
-                bad.append((r, None, 'on resume a node is emitted although its LRU is not strictly greater than the LRU of the token'))
+                bad.append((r, None, 'on resume a node is emitted without its full LRU being compared strictly greater (byte order, the order of the sibling trees) '
+                            'than the LRU of the token'))
         # pruning is decided before anything is emitted
         cf = first_idx(r, lambda e: e.kind == 'call' and e.name == 'can_follow_path')
         if r.val.get('isnone:pagination_path') is False:
@@ -230,6 +232,13 @@ def order(ctx, rr):
         rr.fail(ctx.finding('R-ORDER', io, e.node if e is not None else io.node, 'in-order traversal: ' + msg, detail={'row': r.show()[:500]}))
     if n_full < 1:
         raise AnalysisError('R-ORDER: no row of inorder_traversal emits left, node, child and right')
+    outer_u = P.method('LRUTrie', 'webentity_inorder_iter')
+    raw = [a for a in P.own(outer_u, ast.Assign) if isinstance(a.targets[0], ast.Name) and a.targets[0].id == resume_var(P) and not
+           (isinstance(a.value, ast.Constant) and a.value.value is None)]
+    ok = len(raw) == 1 and isinstance(raw[0].value, ast.Call) and isinstance(raw[0].value.func, ast.Name) and raw[0].value.func.id == 'follow_path'
+    rr.ob(ctx.where(outer_u), 'the resume LRU is the LRU found by following the token path', ok=ok)
+    if not ok:
+        rr.fail(ctx.finding('R-ORDER', outer_u, raw[0] if raw else outer_u.node, 'the LRU the resume filter compares with is not the plain result of follow_path(token path)'))
     # can_follow_path compares path prefixes with >=
     cfp = P.unit('LRUTrie.webentity_inorder_iter.<locals>.can_follow_path')
     rets = [x.value for x in P.own(cfp, ast.Return) if x.value is not None]
@@ -539,6 +548,11 @@ def filter_agree(ctx, rr):
             outer = _enclosing_for(P, u, lp)
             lt = names_in_target(lp.target)
             ot = names_in_target(outer.target) if outer is not None else []
+            if len(owe) == 0 and len(olru) == 1:
+                rr.ob(ctx.where(u, lp), '%s link filter resolves the webentity of the other end with the upward walk' % ('inbound' if inbound else 'outbound'), ok=False)
+                rr.fail(ctx.finding('R-FILTER-AGREE', u, lp, '%s: the %s link filter no longer resolves the webentity of the other end of the link with '
+                                    'windup_lru_for_webentity; nested webentities are then classified wrongly' % (qual, 'inbound' if inbound else 'outbound/internal')))
+                continue
             if len(owe) != 1 or len(olru) != 1 or len(lt) != 2 or len(ot) < 2:
                 raise AnalysisError('R-FILTER-AGREE: link loop of %s not recognised (other-end webentity %s, other-end lru %s)' % (qual, owe, olru))
             OWE, OLRU, WEIGHT, PAGE_LRU = owe[0], olru[0], lt[1], ot[1]
